@@ -1,6 +1,7 @@
 package main
 
 import (
+	"encoding/json"
 	"fmt"
 	"os"
 	"path/filepath"
@@ -20,7 +21,7 @@ func makeOverlay(tmp string) (string, error) {
 	return instrument.MakeOverlay("/repo/v2/drivers/midicatdrv", dir)
 }
 
-var reRaceFunc = regexp.MustCompile(`(?m)^\s+(gitlab\.com/gomidi/midi/v2[^\s(]*)\(`)
+var reRaceFunc = regexp.MustCompile(`(?m)^\s+gitlab\.com/gomidi/midi/v2/drivers/(\S+)\(\)$`)
 
 // raceKey names the two library functions whose accesses conflict.
 func raceKey(report string) string {
@@ -39,7 +40,6 @@ func raceKey(report string) string {
 		f := "non-library-frame"
 		if m != nil {
 			f = m[1]
-			f = strings.TrimPrefix(f, "gitlab.com/gomidi/midi/v2/drivers/")
 		}
 		fs = append(fs, f)
 		if len(fs) == 2 {
@@ -49,35 +49,49 @@ func raceKey(report string) string {
 	return strings.Join(fs, " / ")
 }
 
+// inProgress reads the scenario a dead worker was executing.
+func inProgress(o workerOut) (core.ReplayFile, bool) {
+	var rf core.ReplayFile
+	raw, err := os.ReadFile(o.progress)
+	if err != nil || json.Unmarshal(raw, &rf) != nil || len(rf.Scenario) == 0 {
+		return rf, false
+	}
+	return rf, true
+}
+
+// rerun executes exactly the scenario the dead worker was executing, in a fresh process.
+func rerun(tmp, bin string, part partCfg, rf core.ReplayFile) workerOut {
+	path := filepath.Join(tmp, fmt.Sprintf("inprogress-%d.json", time.Now().UnixNano()))
+	b, _ := json.Marshal(rf)
+	os.WriteFile(path, b, 0o644)
+	return runWorker(tmp, bin, core.Job{Property: part.Key, Tier: "quick", Mode: "replay", Replay: path, Worker: 77}, part.asCfg(), 10*time.Minute)
+}
+
 // raceFound turns a worker that the race detector stopped (exit code 66) into a violation:
-// the run that was in progress is read from the worker's progress file, re-executed alone
-// in a fresh process, and reported only if the race report appears again.
+// the scenario that was being executed (possibly a shrink candidate) is taken from the
+// worker's progress file, re-executed alone in a fresh process, and reported only if the
+// race report appears again.
 func raceFound(tmp, bin string, part partCfg, tier string, seed uint64, o workerOut) []core.Found {
-	run := int64(-1)
-	if raw, err := os.ReadFile(o.progress); err == nil {
-		fmt.Sscanf(strings.TrimSpace(string(raw)), "%d", &run)
+	rf, ok := inProgress(o)
+	if !ok {
+		fatal2("race detector stopped a %s worker but the scenario in progress is unknown\n%s", part.Key, tail(o.stderr, 3000))
 	}
-	if run < 0 {
-		fatal2("race detector stopped a %s worker but the run in progress is unknown\n%s", part.Key, tail(o.stderr, 3000))
+	var again workerOut
+	for try := 0; try < 3; try++ {
+		again = rerun(tmp, bin, part, rf)
+		if again.code == 66 && strings.Contains(again.stderr, "WARNING: DATA RACE") {
+			break
+		}
 	}
-	pcfg := part.asCfg()
-	again := runWorker(tmp, bin, core.Job{Property: part.Key, Tier: tier, Mode: "explore", Seed: seed, From: run, To: run + 1, Stride: 1, Worker: 77}, pcfg, 10*time.Minute)
-	if again.code != 66 {
-		fatal2("race report of %s run %d did not reproduce in a fresh process (code %d)\nfirst report:\n%s", part.Key, run, again.code, tail(o.stderr, 3000))
-	}
-	gen := runWorker(tmp, bin, core.Job{Property: part.Key, Tier: tier, Mode: "gen", Seed: seed, From: run, To: run + 1, Stride: 1, Worker: 78}, pcfg, 10*time.Minute)
-	if gen.res == nil || gen.res.Scenarios[run] == nil {
-		fatal2("could not regenerate the scenario of %s run %d: %v", part.Key, run, gen.err)
-	}
-	if !strings.Contains(again.stderr, "WARNING: DATA RACE") {
-		fatal2("%s run %d exits with the race detector's code but prints no report\n%s", part.Key, run, tail(again.stderr, 3000))
+	if again.code != 66 || !strings.Contains(again.stderr, "WARNING: DATA RACE") {
+		fatal2("race report of %s run %d did not reproduce in a fresh process (code %d)\nfirst report:\n%s", part.Key, rf.Run, again.code, tail(o.stderr, 3000))
 	}
 	key := raceKey(again.stderr)
 	if !strings.Contains(again.stderr, "midicatdrv") {
-		fatal2("race report of %s run %d involves no frame of the instrumented package (harness race?)\n%s", part.Key, run, tail(again.stderr, 4000))
+		fatal2("race report of %s run %d involves no frame of the instrumented package (harness race?)\n%s", part.Key, rf.Run, tail(again.stderr, 4000))
 	}
 	detail := "race detector report (replayed in a fresh process): " + core.Trunc(again.stderr[strings.Index(again.stderr, "WARNING: DATA RACE"):], 1800)
-	return []core.Found{{Violation: core.Violation{Clause: "data-race", Key: key, Detail: detail}, Seed: seed, Run: run, Scenario: gen.res.Scenarios[run]}}
+	return []core.Found{{Violation: core.Violation{Clause: "data-race", Key: key, Detail: detail}, Seed: seed, Run: rf.Run, Scenario: rf.Scenario}}
 }
 
 func replayRace(tmp, bin string, part partCfg, rf core.ReplayFile, abs string) int {
@@ -95,24 +109,16 @@ func replayRace(tmp, bin string, part partCfg, rf core.ReplayFile, abs string) i
 }
 
 // crashFound handles a worker that died from a panic in a goroutine the harness cannot
-// recover in (a library goroutine): the run in progress is re-executed alone and, if it
+// recover in (a library goroutine): the scenario in progress is re-executed alone and, if it
 // crashes again, reported as a violation.
 func crashFound(tmp, bin string, part partCfg, tier string, seed uint64, o workerOut) []core.Found {
-	run := int64(-1)
-	if raw, err := os.ReadFile(o.progress); err == nil {
-		fmt.Sscanf(strings.TrimSpace(string(raw)), "%d", &run)
-	}
-	if run < 0 {
+	rf, ok := inProgress(o)
+	if !ok {
 		return nil
 	}
-	pcfg := part.asCfg()
-	again := runWorker(tmp, bin, core.Job{Property: part.Key, Tier: tier, Mode: "explore", Seed: seed, From: run, To: run + 1, Stride: 1, Worker: 77}, pcfg, 10*time.Minute)
+	again := rerun(tmp, bin, part, rf)
 	i := strings.Index(again.stderr, "panic: ")
 	if again.res != nil || i < 0 || !strings.Contains(again.stderr, "midi/v2") {
-		return nil
-	}
-	gen := runWorker(tmp, bin, core.Job{Property: part.Key, Tier: tier, Mode: "gen", Seed: seed, From: run, To: run + 1, Stride: 1, Worker: 78}, pcfg, 10*time.Minute)
-	if gen.res == nil || gen.res.Scenarios[run] == nil {
 		return nil
 	}
 	msg := again.stderr[i:]
@@ -120,5 +126,5 @@ func crashFound(tmp, bin string, part partCfg, tier string, seed uint64, o worke
 	if j := strings.IndexByte(line, '\n'); j > 0 {
 		line = line[:j]
 	}
-	return []core.Found{{Violation: core.Violation{Clause: "crash", Key: core.Trunc(line, 60), Detail: "the process crashed in a library goroutine (replayed in a fresh process): " + core.Trunc(msg, 1500)}, Seed: seed, Run: run, Scenario: gen.res.Scenarios[run]}}
+	return []core.Found{{Violation: core.Violation{Clause: "crash", Key: core.Trunc(line, 60), Detail: "the process crashed in a library goroutine (replayed in a fresh process): " + core.Trunc(msg, 1500)}, Seed: seed, Run: rf.Run, Scenario: rf.Scenario}}
 }
